@@ -13,6 +13,7 @@ from pyvc.contract import Contract, State
 from pyvc.values import SInt, SBool, SObj, Unsupported, PyRaise, zint
 from pyvc.nparr import Vec, Numpy, qforall
 from pyvc.native import NativeBounded
+from pyvc import ops
 
 PROP = 'C05'
 LEVEL = 'proof'
@@ -74,8 +75,84 @@ class CompressIndices(NativeBounded):
     clauses = ('equals-searchsorted', 'monotone-rowptr', 'rejects-exactly-invalid')
 
 
+class InflateAssparse(Contract):
+    """Inflate._assparse: the scatter index of a sparse chunk is the dofmap entry at the ROW-MAJOR flat position of the
+    chunk's trailing indices:  Take(flat(dofmap), sum_i idx_i * prod_{j>i} dofmap.shape[j])."""
+    prop = PROP
+    fn = 'evaluable:Inflate._assparse'
+    bounded = 'dofmap of rank 1..3 (symbolic lengths), one kept leading axis, one sparse chunk'
+
+    def __init__(self, rank):
+        self.rank = rank
+        self.label = 'dofmap.ndim=%d' % rank
+
+    def setup(self, cx):
+        from contracts.ravel import ir, rowmajor
+        from pyvc.values import SObj, SOpaque
+        r = self.rank
+        lens = [ir(cx, 'len%d' % k, 1) for k in range(r)]
+        idx = [ir(cx, 'idx%d' % k, 0) for k in range(r)]
+        lead = ir(cx, 'lead', 0)
+        values = SObj('Array', attrs={'shape': SOpaque('shape')})
+        dofmap = SObj('Array', attrs={'ndim': r, 'shape': tuple(lens)})
+        func = SObj('Array', attrs={'ndim': r + 1, '_assparse': ((lead, *idx, values),)})
+        S = State(args=(SObj('Inflate', attrs=dict(func=func, dofmap=dofmap)),), lens=lens, idx=idx, lead=lead, values=values, takes=[])
+
+        def Take(ctx, arr, index):
+            S.takes.append((arr, index))
+            return ('TAKE', arr, index)
+
+        class IT:
+            def sym_getattr(self, ctx, name):
+                if name == 'accumulate':
+                    def accumulate(ctx, seq, f):
+                        out, acc = [], None
+                        for x in ops.iterate(ctx, seq):
+                            acc = x if acc is None else ctx.interp.call(f, [acc, x], {})
+                            out.append(acc)
+                        return out
+                    return accumulate
+                raise Unsupported('itertools.' + name)
+
+        class OP:
+            def sym_getattr(self, ctx, name):
+                return {'mul': lambda ctx, a, b: ops.binop(ctx, '*', a, b), 'add': lambda ctx, a, b: ops.binop(ctx, '+', a, b)}[name]
+
+        class FT:
+            def sym_getattr(self, ctx, name):
+                if name == 'reduce':
+                    def reduce(ctx, f, seq):
+                        xs = ops.iterate(ctx, seq)
+                        acc = xs[0]
+                        for x in xs[1:]:
+                            acc = ctx.interp.call(f, [acc, x], {})
+                        return acc
+                    return reduce
+                raise Unsupported('functools.' + name)
+        S.globals = {'_flat': lambda ctx, a: ('FLAT', a), 'Take': Take, 'itertools': IT(), 'operator': OP(), 'functools': FT(), 'appendaxes': lambda ctx, a, sh: a}
+        S.dofmap = dofmap
+        return S
+
+    def ensures(self, cx, S, result):
+        from contracts.ravel import rowmajor
+        from contracts.C01 import IR
+        if not (isinstance(result, tuple) and len(result) == 1):
+            raise Unsupported('chunks %r' % (result,))
+        chunk = result[0]
+        ok_shape = len(chunk) == 3 and chunk[0] is S.lead and chunk[2] is S.values and isinstance(chunk[1], tuple) and chunk[1][0] == 'TAKE' and chunk[1][1] == ('FLAT', S.dofmap)
+        if not ok_shape:
+            return [('chunk-structure', z3.BoolVal(False))]
+        flat = chunk[1][2]
+        want, _ = rowmajor([x.val for x in S.idx], [l.val for l in S.lens])
+        val = flat.val if isinstance(flat, IR) else zint(flat)
+        return [('chunk-structure', z3.BoolVal(True)), ('row-major-flat-index', val == want)]
+
+    def replay(self, ob):
+        return NativeBounded.script_for('c05', 'inflate_assparse()')
+
+
 def contracts():
-    return [UniqueMask(), UniqueInverse(), CompressIndices()]
+    return [UniqueMask(), UniqueInverse(), CompressIndices(), InflateAssparse(1), InflateAssparse(2), InflateAssparse(3)]
 
 
 TRUSTED = ['pyvc symbolic executor; numpy externals: empty/empty_like, slice stores, not_equal(out=), cumsum recurrence (L-CUMSUM), injective integer-array store',
